@@ -302,6 +302,7 @@ class RedshiftBinningFactory:
         closed: Closed | str = Closed.right,
     ) -> Binning:
         """Creates a linear redshift binning between a min and max redshift."""
+        min, max = float(min), float(max)  # not in the precision of e.g. np.float32
         edges = np.linspace(min, max, num_bins + 1)
         return Binning(edges, closed=closed)
 
@@ -315,6 +316,7 @@ class RedshiftBinningFactory:
     ) -> Binning:
         """Creates a binning linear in comoving distance between a min and max
         redshift."""
+        min, max = float(min), float(max)
         comov_min, comov_cmax = self.cosmology.comoving_distance([min, max])
         comov_edges = np.linspace(comov_min, comov_cmax, num_bins + 1)
         comov_func = self.cosmology.comoving_distance
@@ -340,6 +342,7 @@ class RedshiftBinningFactory:
         closed: Closed | str = Closed.right,
     ) -> Binning:
         """Creates a binning linear in 1+ln(z) between a min and max redshift."""
+        min, max = float(min), float(max)
         log_min, log_max = np.log([1.0 + min, 1.0 + max])
         edges = np.logspace(log_min, log_max, num_bins + 1, base=np.e) - 1.0
         edges[0], edges[-1] = min, max  # log/exp round trip is not exact
